@@ -296,6 +296,15 @@ impl Scenario for QueueScn {
                         }
                         after_q = false;
                     }
+                    b'Z' => {
+                        // the empty string is a legal metric for a sink
+                        let h = arg.unwrap_or(0);
+                        if let Some(Some(q)) = handles.get(h) {
+                            n_emit += 1;
+                            emit_on(&sh, q, 0, "");
+                        }
+                        after_q = false;
+                    }
                     b'C' => {
                         let h = arg.unwrap_or(0);
                         if let Some(Some(q)) = handles.get(h) {
